@@ -46,7 +46,7 @@ def setup():
 
 def cases(seed, tier):
     classes = ['Position', 'NedVelocity', 'BodyVelocity', 'simulators']
-    n = 1200 if tier == 'quick' else 40000
+    n = 1200 if tier == 'quick' else 24000
     return [dict(seed=int(seed) * 1000003 + i, cls=classes[i % 4]) for i in range(n)]
 
 
